@@ -141,13 +141,7 @@ class C10(CFGProp):
         if got != want:
             ctx.fail(clause + ".lang", missing=sorted(want - got)[:3], extra=sorted(got - want)[:3],
                      result=x.describe(), **kw)
-        for w in W3:
-            rr = ctx.call(res.value.contains, list(w))
-            if not ctx.returns(rr, clause + ".contains", word=w, **kw):
-                break
-            if rr.value is not (w in want):
-                ctx.fail(clause + ".contains", word=w, got=rr.value, want=w in want, **kw)
-                break
+        ctx.batch_equal(clause + ".contains", lambda w: res.value.contains(list(w)), W3, lambda w: w in want, **kw)
         return got
 
     def _same(self, ctx, clause, res, got0):
